@@ -44,10 +44,12 @@ func init() {
 		ID:        "C12",
 		Level:     "exploration",
 		Technique: "reference-predicate oracle per candidate item (every log/transaction/trace the declaration would emit without filters is evaluated: emitted <=> accepted), through Integration.Insert with a recording/reference-answering connection (volume) and through the full pipeline against a node that filters eth_getLogs server-side by address/topics (pushdown); wrong outcomes are attributed to one filter, to the aggregation, or to the address restriction sent to the node",
-		Rule: "each case draws an integration (log mode 70 %, tx 20 %, trace 10 %) with 2-5 selected event inputs (address, bytes32, bytes4, bytes, string, uint8/64/128/256; indexed or not, incl. all-indexed events whose logs carry no data) and 0-4 block fields, puts 0-3 filters on inputs and block fields " +
+		Rule: "each case draws an integration (log mode 70 %, tx 20 %, trace 10 %) with 2-5 selected event inputs (address, bytes32, bytes4, bytes, string, uint8/64/128/256; indexed or not, incl. all-indexed events whose logs carry no data; in a quarter of the events plus a fifth of the direct cases one array input uint64[], uint256[], address[], bytes32[] or T[k], 1-5 elements drawn from the pool so that one log holds elements on both sides of the argument) and 0-4 block fields, puts 0-3 filters on inputs and block fields " +
 			"(operator × value kind only from the documented matrix: contains/!contains on byte strings and strings, eq/ne on byte strings, strings, uint64 fields, uint256 values, gt/lt on uint64 fields and uint256 values; 1-3 arguments for contains/!contains and byte-string eq/ne, one otherwise; reference filters with contains/!contains on byte strings), aggregation and/or/default, " +
 			"and a chain whose field values are drawn from pools around the later arguments (argument, argument±1, 0, maximum, near-miss byte strings, fragments, present and absent addresses; logs from 5 addresses). Arguments are then chosen among observed values, their neighbours and absent values. " +
-			"Pipeline cases: pushdown (a log_addr filter with contains/!contains/eq/ne over present and absent addresses, alone or and/or-combined with other filters; logs plan), general, and reference filters whose referenced table is filled by a referenced integration plus rows inserted by SQL. " +
+			"Pipeline cases: pushdown (a log_addr filter with contains/!contains/eq/ne over present and absent addresses, alone or and/or-combined with other filters; logs plan), general, reference filters whose referenced table is filled by a referenced integration plus rows inserted by SQL, " +
+			"pushdown-with-reference (log_addr contains/eq on one or two complete emitting addresses plus a reference filter on an address input or on tx_to, under or/default/and: under or the rows of logs from other contracts whose value is in the referenced table are required, under and the restriction is legitimate) and array (a filter on the elements of an array input, alone or combined). " +
+			"Cases 0-2: hand-written minimal pushdown declarations, out-of-matrix probes, minimal array-filter declarations. " +
 			"signature = (path, mode, sorted list of (site, kind, operator, #args class), aggregation, data/no-data); trivial = no candidate item.",
 		Assumptions: []string{
 			"operator × value-kind matrix as documented by the TS configuration types (FilterArgOp, FilterRefOp) and implemented by dig.Filter.Accept; other combinations (gt/lt on byte strings or strings, filters on signed integers, booleans, tx_type/tx_status, reference filters on non-byte-string values) are not generated; case 1 only records what shovel does with them (evidence set out_of_matrix_behaviour)",
@@ -57,7 +59,9 @@ func init() {
 			"filters sit on selected inputs and declared block fields only; an integration without filters accepts everything; the default aggregation is or (ValidateFix)",
 			"reference filters: direct path answers the lookup query from a random set (the query text must name the referenced integration's table and column); pipeline: the referenced integration has reached the head and the chain is static before the dependent starts, so the referenced table is fixed",
 			"pushdown cases avoid receipt-only fields so that the data plan uses eth_getLogs; simnode filters eth_getLogs by address and topics exactly as geth documents (empty/null = any)",
-			"values of accepted rows are C11's subject; C12 compares the set of emitted items (block, tx, log/trace position)",
+			"values of accepted rows are C11's subject; C12 compares the set of emitted items (block, tx, log/trace position, element position)",
+			"a filter declared on an array input is evaluated for every element row on that element (what model.ProjectBlock does per abi_idx row); generated arrays are never empty; at most one array per event",
+			"a verdict is a function of the item's own filtered values: two items with equal values at every filter site and opposite outcomes are reported as state leaking between items (key filter-state-leaks-between-rows-of-one-log when a multi-row log is involved)",
 		},
 		NCases: func(tier string) int {
 			if tier == "thorough" {
@@ -73,7 +77,10 @@ func init() {
 				"items_evaluated": 180000, "items_accepted_by_reference": 80000, "items_rejected_by_reference": 80000, "items_where_and_differs_from_or": 60000,
 				"values_at_argument": 80000, "values_just_above_argument": 15000, "values_just_below_argument": 15000, "values_one_byte_off_argument": 12000, "values_containing_fragment_argument": 6000,
 				"reference_lookups": 25000, "reference_rows_inserted_by_sql": 200, "direct_inserts": 45000,
-				"pipeline_cases_at_head": 1400, "pipeline_items": 10000, "cases_with_address_restriction": 150, "logs_outside_address_restriction": 800,
+				"pipeline_cases_at_head": 1400, "pipeline_items": 10000, "cases_with_address_restriction": 120, "logs_outside_address_restriction": 800,
+				"rows_of_multi_row_logs_under_array_filter": 100000, "logs_with_mixed_element_verdicts": 8000,
+				"pushdown_with_reference_cases_agg_or": 50, "pushdown_with_reference_cases_agg_default": 50, "pushdown_with_reference_cases_agg_and": 20,
+				"reference_accepted_logs_from_unlisted_addresses_under_or": 600,
 			}
 		},
 	})
@@ -91,6 +98,7 @@ type c12Site struct {
 	fixedLen int    // byte strings of fixed length (0 = variable)
 	bits     int    // numeric upper bound
 	indexed  bool
+	array    bool  // the input is T[] / T[k]: one row (and one filter evaluation) per element
 	pool     []any // []byte | string | *big.Int
 	op       string
 	useRef   bool
@@ -174,6 +182,18 @@ var c12InputMenu = []c12InputInfo{
 	{refmodel.Uint(64), "u256", 0, 64, false},
 	{refmodel.Uint(8), "u256", 0, 8, false},
 	{refmodel.Uint(128), "u256", 0, 128, false},
+}
+
+// c12ArrayMenu: array inputs whose elements carry a filter (one array per event).
+var c12ArrayMenu = []c12InputInfo{
+	{refmodel.ArrayOf(refmodel.Uint(64)), "u256", 0, 64, true},
+	{refmodel.ArrayOf(refmodel.Uint(256)), "u256", 0, 256, true},
+	{refmodel.ArrayOf(refmodel.Address()), "bytes", 20, 0, true},
+	{refmodel.ArrayOf(refmodel.BytesN(32)), "bytes", 32, 0, true},
+	{refmodel.FixedOf(3, refmodel.Uint(64)), "u256", 0, 64, true},
+	{refmodel.FixedOf(4, refmodel.Uint(256)), "u256", 0, 256, true},
+	{refmodel.FixedOf(2, refmodel.Address()), "bytes", 20, 0, true},
+	{refmodel.FixedOf(5, refmodel.BytesN(32)), "bytes", 32, 0, true},
 }
 
 func flipByte(b []byte, at int) []byte {
@@ -269,6 +289,8 @@ type c12Opts struct {
 	pipeline  bool
 	nblocks   int
 	noFilters bool
+	array     int  // 0: an array input in a quarter of the log-mode events; 1: forced, and it carries a filter
+	pushRef   bool // with pushdown and ref == 2: log_addr contains/eq on complete present addresses plus a reference filter
 }
 
 type c12Scenario struct {
@@ -332,10 +354,24 @@ func c12Build(r *vk.RNG, o c12Opts) *c12Scenario {
 		if allIndexed {
 			n = r.Range(1, 3)
 		}
+		withArray := o.array == 1 || r.Chance(1, 4)
+		if withArray {
+			allIndexed = false
+		}
+		arrayAt := -1
+		if withArray {
+			arrayAt = r.Intn(n)
+		}
 		for i := 0; i < n; i++ {
 			mi := vk.Pick(r, c12InputMenu)
 			for allIndexed && mi.dynamic {
 				mi = vk.Pick(r, c12InputMenu)
+			}
+			if o.ref == 2 && i == 0 && arrayAt != 0 {
+				mi = c12InputMenu[0] // an address input for the reference filter
+			}
+			if i == arrayAt {
+				mi = vk.Pick(r, c12ArrayMenu)
 			}
 			f := refmodel.Field{Name: fmt.Sprintf("in%d", i+1), Type: mi.t, Column: fmt.Sprintf("c_in%d", i+1)}
 			if !mi.dynamic && nidx < 3 && (allIndexed || r.Bool()) {
@@ -343,7 +379,7 @@ func c12Build(r *vk.RNG, o c12Opts) *c12Scenario {
 				nidx++
 			}
 			d.Inputs = append(d.Inputs, f)
-			cands = append(cands, &c12Site{where: "input", idx: i, name: f.Name, column: f.Column, kind: mi.kind, fixedLen: mi.fixedLen, bits: mi.bits, indexed: f.Indexed})
+			cands = append(cands, &c12Site{where: "input", idx: i, name: f.Name, column: f.Column, kind: mi.kind, fixedLen: mi.fixedLen, bits: mi.bits, indexed: f.Indexed, array: mi.t.IsArray()})
 		}
 	}
 	var bpool []c12BlockInfo
@@ -397,30 +433,58 @@ func c12Build(r *vk.RNG, o c12Opts) *c12Scenario {
 		nf = 0
 	}
 	vk.Shuffle(r, cands)
-	if o.pushdown {
+	// forced sites come first: log_addr (pushdown), the reference site, the array
+	take := func(pred func(*c12Site) bool) *c12Site {
 		for i, s := range cands {
-			if s.name == "log_addr" {
-				cands[0], cands[i] = cands[i], cands[0]
+			if pred(s) {
+				cands = append(cands[:i:i], cands[i+1:]...)
+				return s
 			}
+		}
+		return nil
+	}
+	var forced []*c12Site
+	if o.pushdown {
+		if s := take(func(s *c12Site) bool { return s.name == "log_addr" }); s != nil {
+			forced = append(forced, s)
 		}
 		nf = vk.Pick(r, []int{1, 1, 2, 2, 3})
 	}
 	if o.ref == 2 {
-		// the reference filter sits on an address-valued site
-		for i, s := range cands {
-			if s.kind == "bytes" && s.fixedLen == 20 && s.name != "tx_signer" {
-				cands[0], cands[i] = cands[i], cands[0]
-				break
-			}
+		// the reference filter sits on an address-valued site: an event input or a block field
+		isAddr := func(s *c12Site) bool {
+			return s.kind == "bytes" && s.fixedLen == 20 && !s.array && s.name != "tx_signer" && !(o.pushdown && s.name == "log_addr")
 		}
-		if cands[0].kind != "bytes" || cands[0].fixedLen != 20 || cands[0].name == "tx_signer" {
+		wantInput := r.Bool()
+		rs := take(func(s *c12Site) bool { return isAddr(s) && (s.where == "input") == wantInput })
+		if rs == nil && !wantInput {
 			d.Block = append(d.Block, model.BlockField{Name: "tx_to", Column: "tx_to", ColType: "bytea"})
-			s := &c12Site{where: "block", idx: len(d.Block) - 1, name: "tx_to", column: "tx_to", kind: "bytes", fixedLen: 20}
-			settable["tx_to"] = s
-			cands = append([]*c12Site{s}, cands...)
+			rs = &c12Site{where: "block", idx: len(d.Block) - 1, name: "tx_to", column: "tx_to", kind: "bytes", fixedLen: 20}
+			settable["tx_to"] = rs
 		}
-		cands[0].useRef = true
+		if rs == nil {
+			rs = take(isAddr)
+		}
+		if rs == nil {
+			d.Block = append(d.Block, model.BlockField{Name: "tx_to", Column: "tx_to", ColType: "bytea"})
+			rs = &c12Site{where: "block", idx: len(d.Block) - 1, name: "tx_to", column: "tx_to", kind: "bytes", fixedLen: 20}
+			settable["tx_to"] = rs
+		}
+		rs.useRef = true
+		forced = append(forced, rs)
 	}
+	if o.pushRef {
+		nf = vk.Pick(r, []int{2, 2, 2, 3})
+	}
+	if o.array == 1 {
+		if s := take(func(s *c12Site) bool { return s.array }); s != nil {
+			forced = append(forced, s)
+		}
+	}
+	if nf < len(forced) {
+		nf = len(forced)
+	}
+	cands = append(forced, cands...)
 	if nf > len(cands) {
 		nf = len(cands)
 	}
@@ -487,13 +551,30 @@ func c12Build(r *vk.RNG, o c12Opts) *c12Scenario {
 		target := func(r *vk.RNG) simnode.Log {
 			vals := make([]any, len(d.Inputs))
 			for i, f := range d.Inputs {
-				if s := inPool[i]; s != nil && r.Chance(5, 6) {
-					vals[i] = vk.Pick(r, s.pool)
-					if b, ok := vals[i].([]byte); ok {
-						vals[i] = append([]byte{}, b...)
+				s := inPool[i]
+				one := func(t refmodel.Type) any {
+					if s != nil && r.Chance(5, 6) {
+						v := vk.Pick(r, s.pool)
+						if b, ok := v.([]byte); ok {
+							v = append([]byte{}, b...)
+						}
+						return v
 					}
+					return c11Value(r, t)
+				}
+				if f.Type.IsArray() {
+					// never empty: element values on both sides of the later argument inside one log
+					n := f.Type.N
+					if f.Type.Kind == refmodel.KArray {
+						n = vk.Pick(r, []int{1, 2, 3, 3, 4, 5})
+					}
+					es := make([]any, n)
+					for k := range es {
+						es[k] = one(*f.Type.Elem)
+					}
+					vals[i] = es
 				} else {
-					vals[i] = c11Value(r, f.Type)
+					vals[i] = one(f.Type)
 				}
 			}
 			return model.MakeLog(d.EventName, d.Inputs, vals, vk.Pick(r, sc.addrs))
@@ -600,6 +681,9 @@ func c12Build(r *vk.RNG, o c12Opts) *c12Scenario {
 			sc.agg = vk.Pick(r, []string{"and", "or"})
 		}
 	}
+	if o.pushRef && len(sc.sites) > 1 {
+		sc.agg = vk.Pick(r, []string{"or", "or", "", "", "and"})
+	}
 	fd.FilterAgg = sc.agg
 	sc.d = &fd
 	return sc
@@ -622,6 +706,17 @@ func c12Filter(r *vk.RNG, sc *c12Scenario, s *c12Site, obs []fakepg.Value) model
 			}
 		}
 		return model.Filter{Op: op, Ref: &model.Ref{Integration: sc.ref.Name, Column: "who"}}
+	}
+	if sc.o.pushRef && s.name == "log_addr" {
+		// complete addresses of emitting contracts: a restriction that looks legitimate
+		f := model.Filter{Op: vk.Pick(r, []string{"contains", "eq"})}
+		s.op = f.Op
+		as := append([][]byte(nil), sc.addrs...)
+		vk.Shuffle(r, as)
+		for _, a := range as[:r.Range(1, 2)] {
+			f.Arg = append(f.Arg, "0x"+hex.EncodeToString(a))
+		}
+		return f
 	}
 	f := model.Filter{Op: s.op}
 	switch s.kind {
@@ -732,13 +827,14 @@ type c12Item struct {
 	counted []bool
 	want    bool
 	got     bool
+	logKey  string // the item without its element position
 }
 
 func c12ID(mode model.Mode, row model.Row) string {
 	id := model.CanonValue(row["block_num"]) + "/" + model.CanonValue(row["tx_idx"])
 	switch mode {
 	case model.ModeLog:
-		id += "/" + model.CanonValue(row["log_idx"])
+		id += "/" + model.CanonValue(row["log_idx"]) + "/" + model.CanonValue(row["abi_idx"])
 	case model.ModeTrace:
 		id += "/" + model.CanonValue(row["trace_action_idx"])
 	}
@@ -771,6 +867,7 @@ func (sc *c12Scenario) evaluate(c *vk.Case, blocks []*simnode.Block, gotIDs map[
 	for _, b := range blocks {
 		for _, row := range model.ProjectBlock(sc.bare, namePoolSrc[0], sc.chainID, b, nil) {
 			it := &c12Item{id: c12ID(sc.o.mode, row), row: row}
+			it.logKey = model.CanonValue(row["block_num"]) + "/" + model.CanonValue(row["tx_idx"]) + "/" + model.CanonValue(row["log_idx"]) + "/" + model.CanonValue(row["trace_action_idx"])
 			for _, s := range sc.sites {
 				res, counted := model.AcceptOne(s.filter, row[s.column], sc.look)
 				it.results = append(it.results, res)
@@ -871,6 +968,31 @@ func (sc *c12Scenario) judge(c *vk.Case, path string, items []*c12Item, gotIDs m
 			c.Violate("row-for-unknown-item", merge(detail, map[string]any{"item": id}), "%s: a row was emitted for %s, which is not an item of the declaration", path, id)
 		}
 	}
+	// rows per log; logs whose rows get different verdicts from a filter on the array
+	rowsPerLog := map[string]int{}
+	accPerLog := map[string]int{}
+	for _, it := range items {
+		rowsPerLog[it.logKey]++
+		if it.want {
+			accPerLog[it.logKey]++
+		}
+	}
+	arrayFiltered := false
+	for _, s := range sc.sites {
+		if s.array {
+			arrayFiltered = true
+		}
+	}
+	if arrayFiltered {
+		for k, n := range rowsPerLog {
+			if n > 1 {
+				c.Obs("rows_of_multi_row_logs_under_array_filter", int64(n))
+				if accPerLog[k] > 0 && accPerLog[k] < n {
+					c.Obs("logs_with_mixed_element_verdicts", 1)
+				}
+			}
+		}
+	}
 	// items whose log the node never served say nothing about the filters
 	lost := map[*c12Item]string{}
 	unserved := map[*c12Item]bool{}
@@ -921,6 +1043,34 @@ func (sc *c12Scenario) judge(c *vk.Case, path string, items []*c12Item, gotIDs m
 			}
 		}
 	}
+	// a verdict is a function of the item's own filtered values (the referenced
+	// table is fixed): two items with the same values and different outcomes show
+	// state carried from one item to the next
+	valKey := func(it *c12Item) string {
+		var sb strings.Builder
+		for _, s := range sc.sites {
+			sb.WriteString(model.CanonValue(it.row[s.column]))
+			sb.WriteByte('|')
+		}
+		return sb.String()
+	}
+	firstWith := map[string][2]*c12Item{}
+	if len(sc.sites) > 0 {
+		for _, it := range items {
+			if unserved[it] {
+				continue
+			}
+			k, gi := valKey(it), 0
+			if it.got {
+				gi = 1
+			}
+			p := firstWith[k]
+			if p[gi] == nil {
+				p[gi] = it
+				firstWith[k] = p
+			}
+		}
+	}
 	var explainers []int
 	for i, e := range explains {
 		if e {
@@ -946,6 +1096,21 @@ func (sc *c12Scenario) judge(c *vk.Case, path string, items []*c12Item, gotIDs m
 		if key, isLost := lost[it]; isLost {
 			c.Violate(key, det, "%s: item %s is accepted by the declared filters but the restriction sent with eth_getLogs excluded its log", path, it.id)
 			continue
+		}
+		if len(sc.sites) > 0 {
+			gi := 1
+			if it.got {
+				gi = 0
+			}
+			if partner := firstWith[valKey(it)][gi]; partner != nil {
+				key := "filter-outcome-not-a-function-of-the-item"
+				if rowsPerLog[it.logKey] > 1 || rowsPerLog[partner.logKey] > 1 {
+					key = "filter-state-leaks-between-rows-of-one-log"
+				}
+				c.Violate(key, merge(det, map[string]any{"same_values_other_outcome": partner.id, "rows_of_this_log": rowsPerLog[it.logKey]}),
+					"%s: item %s %s although item %s with the same filtered values got the opposite outcome", path, it.id, dir, partner.id)
+				continue
+			}
 		}
 		switch {
 		case len(sc.sites) == 0:
@@ -1001,6 +1166,8 @@ func (sc *c12Scenario) sigs(c *vk.Case, path string) {
 			}
 		case s.indexed:
 			w, cls = "input-indexed", "input-indexed"
+		case s.array:
+			w, cls = "input-array", "input-array"
 		}
 		c.Seen("matrix", strings.TrimPrefix(s.key(), "filter:"))
 		c.Seen("filtered_sites", w+":"+s.filter.Op)
@@ -1067,6 +1234,8 @@ func c12Run(c *vk.Case) {
 		c12Catalogue(c)
 	case c.Index == 1:
 		c12Probes(c)
+	case c.Index == 2:
+		c12ArrayCatalogue(c)
 	case c12IsPipe(c):
 		c12Pipeline(c)
 	default:
@@ -1087,10 +1256,24 @@ func c12Mode(r *vk.RNG) model.Mode {
 func c12Direct(c *vk.Case) {
 	r := c.R
 	o := c12Opts{mode: c12Mode(r), ref: 1, nblocks: r.Range(2, 4)}
+	if r.Chance(1, 5) {
+		o.mode, o.array = model.ModeLog, 1
+	}
 	sc := c12Build(r, o)
+	c12DirectRun(c, sc, c.Index >= 3 && c.Index < 9)
+}
+
+func c12DirectRun(c *vk.Case, sc *c12Scenario, sample bool) {
+	o := sc.o
 	blocks := sc.chain.Canon()[1:]
 	detail := map[string]any{"declaration": sc.describe()}
-	dest, colTypes, confJSON, err, p := directDest([]*model.Decl{sc.d, sc.ref}, 0)
+	decls := []*model.Decl{sc.d}
+	refTable := ""
+	if sc.ref != nil {
+		decls = append(decls, sc.ref)
+		refTable = sc.ref.Table
+	}
+	dest, colTypes, confJSON, err, p := directDest(decls, 0)
 	detail["config"] = confJSON
 	switch {
 	case p != nil:
@@ -1100,7 +1283,7 @@ func c12Direct(c *vk.Case) {
 		c.Violate("setup-rejected:"+errKey(err.Error()), merge(detail, map[string]any{"error": err.Error()}), "a declaration of the supported domain was rejected: %v", err)
 		return
 	}
-	rc := &refConn{table: sc.ref.Table, col: "who", set: sc.refSet}
+	rc := &refConn{table: refTable, col: "who", set: sc.refSet}
 	_, err, p = directInsert(dest, rc, sc.chainID, ethBlocks(blocks))
 	c.Obs("direct_inserts", 1)
 	switch {
@@ -1112,7 +1295,7 @@ func c12Direct(c *vk.Case) {
 		return
 	}
 	if len(rc.bad) > 0 {
-		c.Violate("ref-filter:unexpected-lookup-query", merge(detail, map[string]any{"queries": shortList(rc.bad, 3), "expected_table": sc.ref.Table, "expected_column": "who"}), "a reference filter looked up %q", rc.bad[0])
+		c.Violate("ref-filter:unexpected-lookup-query", merge(detail, map[string]any{"queries": shortList(rc.bad, 3), "expected_table": refTable, "expected_column": "who"}), "a reference filter looked up %q", rc.bad[0])
 		return
 	}
 	c.Obs("reference_lookups", int64(rc.lookups))
@@ -1134,7 +1317,7 @@ func c12Direct(c *vk.Case) {
 	if len(items) > 0 {
 		sc.sigs(c, "direct")
 	}
-	if c.Index >= 2 && c.Index < 8 {
+	if sample {
 		c.Sample(map[string]any{"path": "direct", "declaration": sc.describe(), "config": confJSON, "items": len(items), "emitted": len(got)})
 	}
 }
@@ -1200,7 +1383,7 @@ func c12Pipeline(c *vk.Case) {
 	if c.Thorough() {
 		every = c12PipeEveryThorough
 	}
-	sub := (c.Index / every) % 4
+	sub := (c.Index / every) % 6
 	o := c12Opts{mode: c12Mode(r), pipeline: true, nblocks: r.Range(4, 8)}
 	subName := "general"
 	switch sub {
@@ -1211,6 +1394,11 @@ func c12Pipeline(c *vk.Case) {
 		if o.mode == model.ModeTrace {
 			o.mode = model.ModeLog
 		}
+	case 4:
+		// a legitimate-looking address restriction next to a reference filter
+		o.mode, o.pushdown, o.ref, o.pushRef, subName = model.ModeLog, true, 2, true, "pushdown-with-reference"
+	case 5:
+		o.mode, o.array, subName = model.ModeLog, 1, "array"
 	}
 	sc := c12Build(r, o)
 	c12PipeRun(c, r, sc, subName, c.Index < every*5)
@@ -1254,6 +1442,122 @@ func c12Manual(r *vk.RNG, laOp string, laArgs func(addrs [][]byte) []string, toF
 	return sc
 }
 
+// c12ManualRef: Transfer from 5 contracts; log_addr contains [one contract]
+// combined with a reference filter on the recipient (event input) or on tx_to
+// (block field); the referenced table holds the transaction signers.
+func c12ManualRef(r *vk.RNG, agg string, onBlock bool) *c12Scenario {
+	sc := &c12Scenario{o: c12Opts{mode: model.ModeLog, pushdown: true, pushRef: true, ref: 2, pipeline: true, nblocks: 3}, chainID: 1, refSet: map[string]bool{}, agg: agg}
+	for i := 0; i < 8; i++ {
+		sc.addrPool = append(sc.addrPool, r.Bytes(20))
+	}
+	sc.addrs = sc.addrPool[2:7]
+	d := &model.Decl{Name: namePoolIG[0], Enabled: true, Table: namePoolTbl[0], ColTypes: map[string]string{}, InFilter: map[string]model.Filter{}, EventName: "Transfer"}
+	d.Sources = []model.SrcRef{{Name: namePoolSrc[0], Start: 1}}
+	d.Inputs = []refmodel.Field{
+		{Name: "from", Type: refmodel.Address(), Indexed: true, Column: "f"},
+		{Name: "to", Type: refmodel.Address(), Indexed: true, Column: "t"},
+		{Name: "value", Type: refmodel.Uint(256), Column: "v"},
+	}
+	d.Block = []model.BlockField{{Name: "log_addr", Column: "log_addr", ColType: "bytea"}}
+	if onBlock {
+		d.Block = append(d.Block, model.BlockField{Name: "tx_to", Column: "tx_to", ColType: "bytea"})
+	}
+	sc.bare = d
+	sc.ref = &model.Decl{Name: namePoolIG[1], Enabled: true, Table: namePoolTbl[1], ColTypes: map[string]string{}, InFilter: map[string]model.Filter{}}
+	sc.ref.Sources = []model.SrcRef{{Name: namePoolSrc[0], Start: 1}}
+	sc.ref.Block = []model.BlockField{{Name: "tx_signer", Column: "who", ColType: "bytea"}}
+	mk := func(r *vk.RNG) simnode.Log {
+		return model.MakeLog(d.EventName, d.Inputs, []any{r.Bytes(20), vk.Pick(r, sc.addrPool), big.NewInt(int64(r.Intn(1000)))}, vk.Pick(r, sc.addrs))
+	}
+	seed := r.U64()
+	inner := gen.Content(gen.ChainOpts{Seed: seed, MinTxs: 2, MaxTxs: 3, MaxLogs: 3, Makers: []gen.LogMaker{mk}})
+	sc.chain = simnode.NewChain(nextChainID(), func(b *simnode.Block) {
+		inner(b)
+		rr := vk.NewRNG(vk.Derive(seed, 0xC12F, b.Version))
+		for i := range b.Txs {
+			b.Txs[i].From = vk.Pick(rr, sc.addrPool[:4])
+			b.Txs[i].To = vk.Pick(rr, sc.addrPool)
+		}
+	})
+	sc.chain.Grow(sc.o.nblocks)
+	fd := *d
+	fd.InFilter = map[string]model.Filter{}
+	fd.Block = append([]model.BlockField(nil), d.Block...)
+	la := &c12Site{where: "block", idx: 0, name: "log_addr", column: "log_addr", kind: "bytes", fixedLen: 20, op: "contains",
+		filter: model.Filter{Op: "contains", Arg: []string{"0x" + hex.EncodeToString(sc.addrs[0])}}}
+	fd.Block[0].Filter = la.filter
+	rf := model.Filter{Op: "contains", Ref: &model.Ref{Integration: sc.ref.Name, Column: "who"}}
+	rs := &c12Site{where: "input", idx: 1, name: "to", column: "t", kind: "bytes", fixedLen: 20, indexed: true, op: "contains", useRef: true, filter: rf}
+	if onBlock {
+		rs = &c12Site{where: "block", idx: 1, name: "tx_to", column: "tx_to", kind: "bytes", fixedLen: 20, op: "contains", useRef: true, filter: rf}
+		fd.Block[1].Filter = rf
+	} else {
+		fd.InFilter["to"] = rf
+	}
+	sc.sites = []*c12Site{la, rs}
+	fd.FilterAgg = agg
+	sc.d = &fd
+	return sc
+}
+
+// c12ManualArray: Batch(address who, uint64[] ids) with a filter on the
+// elements (and optionally one on who); every log carries elements on both
+// sides of the argument.
+func c12ManualArray(r *vk.RNG, op, agg string, withScalar bool, fixed int) *c12Scenario {
+	sc := &c12Scenario{o: c12Opts{mode: model.ModeLog, nblocks: 2, array: 1}, chainID: 1, refSet: map[string]bool{}, agg: agg}
+	for i := 0; i < 2; i++ {
+		sc.addrs = append(sc.addrs, r.Bytes(20))
+	}
+	whos := [][]byte{r.Bytes(20), r.Bytes(20)}
+	at := refmodel.ArrayOf(refmodel.Uint(64))
+	if fixed > 0 {
+		at = refmodel.FixedOf(fixed, refmodel.Uint(64))
+	}
+	d := &model.Decl{Name: namePoolIG[0], Enabled: true, Table: namePoolTbl[0], ColTypes: map[string]string{}, InFilter: map[string]model.Filter{}, EventName: "Batch"}
+	d.Sources = []model.SrcRef{{Name: namePoolSrc[0], Start: 1}}
+	d.Inputs = []refmodel.Field{{Name: "who", Type: refmodel.Address(), Column: "who"}, {Name: "ids", Type: at, Column: "id"}}
+	sc.bare = d
+	mk := func(r *vk.RNG) simnode.Log {
+		n := fixed
+		if n == 0 {
+			n = r.Range(3, 5)
+		}
+		es := make([]any, n)
+		for i := range es {
+			es[i] = big.NewInt(int64(4 + (i+r.Intn(2))%3)) // 4, 5, 6 around the argument 5
+		}
+		return model.MakeLog(d.EventName, d.Inputs, []any{vk.Pick(r, whos), es}, vk.Pick(r, sc.addrs))
+	}
+	sc.chain = simnode.NewChain(nextChainID(), gen.Content(gen.ChainOpts{Seed: r.U64(), MinTxs: 1, MaxTxs: 2, MaxLogs: 2, Makers: []gen.LogMaker{mk}}))
+	sc.chain.Grow(sc.o.nblocks)
+	fd := *d
+	fd.InFilter = map[string]model.Filter{"ids": {Op: op, Arg: []string{"5"}}}
+	sc.sites = []*c12Site{{where: "input", idx: 1, name: "ids", column: "id", kind: "u256", bits: 64, array: true, op: op, filter: fd.InFilter["ids"]}}
+	if withScalar {
+		f := model.Filter{Op: "eq", Arg: []string{"0x" + hex.EncodeToString(whos[0])}}
+		fd.InFilter["who"] = f
+		sc.sites = append(sc.sites, &c12Site{where: "input", idx: 0, name: "who", column: "who", kind: "bytes", fixedLen: 20, op: "eq", filter: f})
+	}
+	fd.FilterAgg = agg
+	sc.d = &fd
+	return sc
+}
+
+// c12ArrayCatalogue: minimal array-filter declarations on the direct path.
+func c12ArrayCatalogue(c *vk.Case) {
+	r := c.R
+	for _, sc := range []*c12Scenario{
+		c12ManualArray(r, "gt", "", false, 0),
+		c12ManualArray(r, "gt", "and", false, 0),
+		c12ManualArray(r, "lt", "or", false, 3),
+		c12ManualArray(r, "eq", "and", false, 4),
+		c12ManualArray(r, "ne", "or", true, 0),
+		c12ManualArray(r, "gt", "and", true, 0),
+	} {
+		c12DirectRun(c, sc, false)
+	}
+}
+
 // c12Catalogue: minimal pushdown declarations, run first so that the witness
 // kept for a key is as small as the defect allows.
 func c12Catalogue(c *vk.Case) {
@@ -1269,6 +1573,10 @@ func c12Catalogue(c *vk.Case) {
 		c12Manual(r, "contains", one, toEq, "or"),                                                            // one contract, or a recipient anywhere
 		c12Manual(r, "contains", func(a [][]byte) []string { return []string{hx(a[0][:4])} }, nil, ""),       // address prefix
 		c12Manual(r, "contains", func(a [][]byte) []string { return []string{hx(r.Bytes(20))} }, toEq, "or"), // absent contract, or a recipient
+		c12ManualRef(r, "and", false),                                                                        // control: the restriction is legitimate
+		c12ManualRef(r, "or", false),                                                                         // one contract, or a recipient listed in the referenced table
+		c12ManualRef(r, "", true),                                                                            // default aggregation, reference filter on a block field
+		c12ManualRef(r, "or", true),
 	} {
 		c12PipeRun(c, r, sc, "catalogue", false)
 	}
@@ -1405,6 +1713,29 @@ func c12PipeRun(c *vk.Case, r *vk.RNG, sc *c12Scenario, subName string, sample b
 	}
 	c.Evals(int64(len(items)) + 1)
 	c.Obs("pipeline_items", int64(len(items)))
+	if o.pushRef {
+		li, ri := -1, -1
+		for i, s := range sc.sites {
+			switch {
+			case s.filter.Ref != nil:
+				ri = i
+			case s.name == "log_addr":
+				li = i
+			}
+		}
+		if li >= 0 && ri >= 0 {
+			c.Obs("pushdown_with_reference_cases_agg_"+aggName(sc.agg), 1)
+			for _, it := range items {
+				if it.results[ri] && !it.results[li] {
+					if sc.agg == "and" {
+						c.Obs("reference_accepted_logs_from_unlisted_addresses_under_and", 1)
+					} else {
+						c.Obs("reference_accepted_logs_from_unlisted_addresses_under_or", 1)
+					}
+				}
+			}
+		}
+	}
 	logIdx := c11LogIndex(blocks)
 	inPushed := func(a []byte) bool {
 		for _, p := range pushed {
@@ -1468,6 +1799,11 @@ func c12PipeRun(c *vk.Case, r *vk.RNG, sc *c12Scenario, subName string, sample b
 				key = "pushdown-loses-logs:op=" + la.filter.Op
 			case len(sc.sites) > 1 && sc.agg != "and":
 				key = "pushdown-loses-logs:agg=or-with-other-filter"
+				for _, s := range sc.sites {
+					if s.filter.Ref != nil {
+						key = "pushdown-loses-logs:agg=or-with-reference-filter"
+					}
+				}
 			case partial:
 				key = "pushdown-loses-logs:partial-address-argument"
 			}
